@@ -59,9 +59,9 @@ def framing(fmt, pk):
     return out
 
 
-def decode_packets(fmt, pks, ts):
+def decode_packets(fmt, pks, ts, dec=None):
     from nmea2000.decoder import NMEA2000Decoder
-    dec = NMEA2000Decoder()
+    dec = dec or NMEA2000Decoder()
     res = None
     for p in pks:
         if fmt == "ebyte":
@@ -81,6 +81,7 @@ class Checker:
         from nmea2000.encoder import NMEA2000Encoder
         self.ctx = ctx
         self.dec = NMEA2000Decoder()
+        self.rx = NMEA2000Decoder()         # a receiving decoder that lives as long as the shard (every sender here starts a new encoder)
         self.Enc = NMEA2000Encoder
 
     def message(self, d, payload, nbytes, src, dest, prio):
@@ -140,6 +141,15 @@ class Checker:
         if fields_tuple(back) != fields_tuple(m):
             diff = [x[0] for x, y in zip(fields_tuple(back), fields_tuple(m)) if x != y]
             out.append((f"C06|roundtrip-fields|{fmt}", f"fields differ after {fmt} round trip: {diff}", case))
+        # the same packets into a decoder that has received many messages before (from senders that each started a new encoder)
+        try:
+            back2 = decode_packets(fmt, pks, ts, self.rx)
+        except Exception as e:
+            back2 = e
+        if not out and (back2 is None or isinstance(back2, Exception) or fields_tuple(back2) != fields_tuple(back)
+                        or (back2.PGN, back2.id, back2.source, back2.destination, back2.priority) != a):
+            out.append((f"C06|roundtrip-used-decoder|{fmt}", f"a fresh decoder returns the message, a decoder that has received earlier messages returns "
+                        f"{'nothing' if back2 is None else type(back2).__name__ if isinstance(back2, Exception) else 'a different message'}", dict(case, used_decoder=True)))
         return out
 
 
@@ -264,7 +274,13 @@ def _streams(ctx: Ctx, item):
     ctx.hyp(one, msgs(), st.sampled_from(["ebyte", "usb", "yd"]), max_examples=n, name="streams")
 
 
+def _dual(ctx: Ctx, item):
+    from .. import clientopts as co
+    co.dual_pass(ctx, "C06", item[0])
+
+
 def run(ctx: Ctx):
+    pmap(ctx, _dual, [("waveshare",)])
     db = canboat.db()
     enc = [d.key for d in db.defs if d.encodable]
     n = 12 if ctx.quick else 400
@@ -276,6 +292,9 @@ def run(ctx: Ctx):
 
 
 def replay(ctx: Ctx, case):
+    if case.get("dual"):
+        from .. import clientopts as co
+        return co.dual_replay("C06", "C06", case)
     from nmea2000.decoder import NMEA2000Decoder
     db = canboat.db()
     ck = Checker(ctx)
@@ -301,5 +320,9 @@ def replay(ctx: Ctx, case):
         return holder.get("out", [])
     d = db.by_key[case["definition"]]
     data = bytes.fromhex(case["payload_hex"])
+    if case.get("used_decoder"):
+        # the receiving decoder has seen the same message (from another sender instance) before
+        ck.check(d, int.from_bytes(data, "little"), len(data), case["source"], case["destination"], case["priority"], case["format"],
+                 tuple(case.get("timestamps", ("A000001.000", "00:00:01.000"))))
     return ck.check(d, int.from_bytes(data, "little"), len(data), case["source"], case["destination"], case["priority"], case["format"],
                     tuple(case.get("timestamps", ("A000001.000", "00:00:01.000"))))
